@@ -2,7 +2,7 @@
    monad, checked index / update / slice, sub-lists, and [lines]. *)
 From Coq Require Import List Bool Arith ZArith Lia.
 From Coq.Strings Require Import Byte.
-From GI Require Import Lib.Bytes Gen.DiffConsts Diff.Diff.
+From GI Require Import Lib.Bytes Gen.DiffConsts Diff.Diff Diff.DiffSpec.
 Import ListNotations.
 
 (* ---------------------------------------------------------------- equality on bytes *)
@@ -70,8 +70,6 @@ Proof.
     intros [|j] d; simpl; auto.
 Qed.
 
-(* the sub-list l[a:b] *)
-Definition sub {A} (l : list A) (a b : nat) : list A := firstn (b - a) (skipn a l).
 
 Lemma slice_ok {A} (l : list A) a b : a <= b -> b <= length l -> slice l a b = Ok (sub l a b).
 Proof.
